@@ -175,6 +175,28 @@ Section RepairProofs.
   Proof.
     unfold repair_tree. fold mt. apply tree_files_ok. intros x _. eapply node_ok_all. apply Nat.le_refl.
   Qed.
+  (* RESULT 4: missing subtrees.  A directory whose subtree cannot be loaded stays in its parent, with its name and
+     metadata, as an EMPTY directory; a directory node without subtree id gets an empty tree; both flag a change.
+     A directory whose subtree loads keeps name and metadata and gets the repaired subtree. *)
+  Lemma repair_missing_subtree_lemma path a m t c s :
+    (readable s = false ->
+       mn path (Node a KDir m t c s) = (Some (Node a KDir m t c []), negb (tree_eqb [] s)) \/
+       mn path (Node a KDir m t c s) = (Some (Node a KDir m t c s), false) /\ s = []) /\
+    mn path (Node a KDirNoSub m t c s) = (Some (Node a KDir m t c []), true) /\
+    (readable s = true ->
+       fst (mn path (Node a KDir m t c s)) = Some (Node a KDir m t c (result_tree s (mt (path ++ [a]) s)))).
+  Proof.
+    split; [|split].
+    - intro Hr. unfold mn. rewrite modify_node_unfold. cbn [rp_visit]. unfold modify_tree. rewrite Hr. unfold finish.
+      change modifier_sorts_changed_trees with true. cbv iota. change (sort_tree []) with ([] : tree). cbn [andb].
+      destruct (tree_eqb [] s) eqn:E; cbn [negb].
+      + right. split; [reflexivity|]. symmetry. apply tree_eqb_sound. exact E.
+      + left. reflexivity.
+    - unfold mn. rewrite modify_node_unfold. reflexivity.
+    - intros _. assert (rp_visit has_data mark resize (path ++ [a]) (Node a KDir m t c s) = AVisit (Node a KDir m t c s) false) as Hv by reflexivity.
+      unfold mn. rewrite (modify_node_visit_value _ _ _ _ _ _ _ _ _ _ _ Hv eq_refl). reflexivity.
+  Qed.
+
   (* RESULT 3: a tree written by repair is in name order again (the marker suffix can move a file) *)
   Lemma repair_result_sorted_lemma t st :
     repair_tree has_data mark resize readable t = Changed st -> sorted_le st.
